@@ -20,7 +20,7 @@ class LogFull(KeyboardInterrupt):
 
 
 class Log:
-    __slots__ = ('ev', 'clock', 'names', '_refs', 'classes', 'cause_stack', 'cap')
+    __slots__ = ('ev', 'clock', 'names', '_refs', 'classes', 'cause_stack', 'strip_stack', 'cap')
 
     def __init__(self, clock=None):
         self.ev = []
@@ -29,6 +29,7 @@ class Log:
         self._refs = {}          # id(node) -> weakref (to detect id reuse)
         self.classes = {}        # id(node) -> class name
         self.cause_stack = []    # ids of the metadata dicts of the enclosing update() calls
+        self.strip_stack = []    # parallel: class of the node that handed data on without the metadata it had received (or None)
         self.cap = 250000
 
     def name(self, node, label):
@@ -73,10 +74,15 @@ def _wrap_update(orig):
         wlab = log.label(who) if who is not None else None
         if metadata and isinstance(metadata, list):
             cause = frozenset(id(d) for d in metadata if isinstance(d, dict))
+            strip = None
         else:
             cause = log.cause_stack[-1] if log.cause_stack else frozenset()
+            strip = None
+            if cause:
+                strip = (log.strip_stack[-1] if log.strip_stack and log.strip_stack[-1] else type(who).__name__)
         log.add('IN', me, wlab, x, _snap_md(metadata), cause)
         log.cause_stack.append(cause)
+        log.strip_stack.append(strip)
         try:
             r = orig(self, x, who=who, metadata=metadata)
         except BaseException as e:
@@ -84,6 +90,7 @@ def _wrap_update(orig):
             raise
         finally:
             log.cause_stack.pop()
+            log.strip_stack.pop()
         if asyncio.isfuture(r):
             idx = len(log.ev)
 
